@@ -416,6 +416,8 @@ func MillerLoopFixedQ(P []G1Affine, lines [][2][len(LoopCounter) - 1]LineEvaluat
 	var result GT
 	result.SetOne()
 	var prodLines [5]E2
+	// line evaluations at P[k] are computed into l0, l1: the caller's lines are read-only
+	var l0, l1 LineEvaluationAff
 
 	// Compute ∏ᵢ { fᵢ_{x₀,Q}(P) }
 	if n >= 1 {
@@ -435,10 +437,10 @@ func MillerLoopFixedQ(P []G1Affine, lines [][2][len(LoopCounter) - 1]LineEvaluat
 		// k = 1, separately to avoid MulBy34 (res × ℓ)
 		// (res is also a line at this point, so we use Mul34By34 ℓ × ℓ)
 		// line evaluation at P[1]
-		lines[1][0][62].R0.MulByElement(&lines[1][0][62].R0, &xNegOverY[1])
-		lines[1][0][62].R1.MulByElement(&lines[1][0][62].R1, &yInv[1])
+		l0.R0.MulByElement(&lines[1][0][62].R0, &xNegOverY[1])
+		l0.R1.MulByElement(&lines[1][0][62].R1, &yInv[1])
 		// ℓ × res
-		prodLines = fptower.Mul34By34(&lines[1][0][62].R0, &lines[1][0][62].R1, &result.C1.B0, &result.C1.B1)
+		prodLines = fptower.Mul34By34(&l0.R0, &l0.R1, &result.C1.B0, &result.C1.B1)
 		result.C0.B0 = prodLines[0]
 		result.C0.B1 = prodLines[1]
 		result.C0.B2 = prodLines[2]
@@ -449,12 +451,12 @@ func MillerLoopFixedQ(P []G1Affine, lines [][2][len(LoopCounter) - 1]LineEvaluat
 	// k >= 2
 	for k := 2; k < n; k++ {
 		// line evaluation at P[k]
-		lines[k][0][62].R0.MulByElement(&lines[k][0][62].R0, &xNegOverY[k])
-		lines[k][0][62].R1.MulByElement(&lines[k][0][62].R1, &yInv[k])
+		l0.R0.MulByElement(&lines[k][0][62].R0, &xNegOverY[k])
+		l0.R1.MulByElement(&lines[k][0][62].R1, &yInv[k])
 		// ℓ × res
 		result.MulBy34(
-			&lines[k][0][62].R0,
-			&lines[k][0][62].R1,
+			&l0.R0,
+			&l0.R1,
 		)
 	}
 
@@ -465,12 +467,12 @@ func MillerLoopFixedQ(P []G1Affine, lines [][2][len(LoopCounter) - 1]LineEvaluat
 
 		for k := 0; k < n; k++ {
 			// line evaluation at P[k]
-			lines[k][0][i].R0.
+			l0.R0.
 				MulByElement(
 					&lines[k][0][i].R0,
 					&xNegOverY[k],
 				)
-			lines[k][0][i].R1.
+			l0.R1.
 				MulByElement(
 					&lines[k][0][i].R1,
 					&yInv[k],
@@ -479,25 +481,25 @@ func MillerLoopFixedQ(P []G1Affine, lines [][2][len(LoopCounter) - 1]LineEvaluat
 			if LoopCounter[i] == 0 {
 				// ℓ × res
 				result.MulBy34(
-					&lines[k][0][i].R0,
-					&lines[k][0][i].R1,
+					&l0.R0,
+					&l0.R1,
 				)
 			} else {
 				// line evaluation at P[k]
-				lines[k][1][i].R0.
+				l1.R0.
 					MulByElement(
 						&lines[k][1][i].R0,
 						&xNegOverY[k],
 					)
-				lines[k][1][i].R1.
+				l1.R1.
 					MulByElement(
 						&lines[k][1][i].R1,
 						&yInv[k],
 					)
 				// ℓ × ℓ
 				prodLines = fptower.Mul34By34(
-					&lines[k][0][i].R0, &lines[k][0][i].R1,
-					&lines[k][1][i].R0, &lines[k][1][i].R1,
+					&l0.R0, &l0.R1,
+					&l1.R0, &l1.R1,
 				)
 				// (ℓ × ℓ) × res
 				result.MulBy01234(&prodLines)
